@@ -1291,6 +1291,28 @@ GROUPS.append(("FnsFromExt.lean", ["Sds.Model.BitVector", "Sds.Generated.FnsVec"
 ]))
 
 
+# ---- the other instances of `macro_rules! from_extend_int_vector` (u8 / u16 / u32 at their own widths, usize at 64): the same
+# three bodies with `$t` / `$w` replaced; an item of type `$t` is a word below 2^$w
+def fromext_instance(t, w):
+    ms = {"$t": t, "$w": str(w)}
+    ext = "gen_IntVector_extend_%s" % t
+    calls = dict(FROMEXT_CALLS, **{"<IntVector>.extend": dict(lean=ext + " m cap {0} {1}", ret=UNIT, mutrecv=True, monadic=True, args=[WLIST])})
+    return [
+        dict(file="int_vector.rs", impl=r"impl Extend<%s> for IntVector\b" % t, fn="extend", name=ext, macro_subst=ms,
+             self=dict(INT_SELF, mut=True), binders=["(cap : Nat)"], calls=calls, params={"iter": ("(iter : List Word)", WLIST, "iter")},
+             tyalias=ITEM, fuel=["iter.length + 1"]),
+        dict(file="int_vector.rs", impl=r"impl From<Vec<%s>> for IntVector\b" % t, fn="from", name="gen_IntVector_from_vec_%s" % t, macro_subst=ms,
+             binders=["(cap : Nat)"], calls=dict(calls, **{"v.len": dict(lean="v.size", ret=U, monadic=False)}),
+             params={"v": ("(v : Array Word)", WLIST, "v.toList")}, tyalias={"Self": IV}, ret=IV),
+        dict(file="int_vector.rs", impl=r"impl FromIterator<%s> for IntVector\b" % t, fn="from_iter", name="gen_IntVector_from_iter_%s" % t, macro_subst=ms,
+             binders=["(cap : Nat)"], calls=calls, params={"iter": ("(iter : List Word)", WLIST, "iter")}, tyalias={"Self": IV}, ret=IV),
+    ]
+
+
+GROUPS.append(("FnsFromExt2.lean", ["Sds.Model.BitVector", "Sds.Generated.FnsFromExt"],
+               fromext_instance("u8", 8) + fromext_instance("u16", 16) + fromext_instance("u32", 32) + fromext_instance("usize", 64)))
+
+
 # ---- the wavelet matrix from a vector: `WaveletMatrix::start_offsets` (counting, two `sort_unstable_by_key`, the prefix sums
 # through `iter_mut()`, `collect()` into an IntVector, `pack`) and the `macro_rules! wavelet_matrix_from` body at `u64`
 WUP = ("N", "WUPairs")
